@@ -1352,9 +1352,6 @@ def attr_population(ctx, st, rng, nbases, per_base_histories):
                 return
 
 
-_STAMP = [_SUP, ('program:stamp', [('command', '/bin/date +%%d'), ('autostart', 'false')]), ('program:web', [('command', '/bin/cat')])]
-
-
 def _stamp(cmd, *extra):
     return [_SUP, ('program:stamp', [('command', cmd), ('autostart', 'false')] + list(extra)), ('program:web', [('command', '/bin/cat')])]
 
@@ -1574,7 +1571,7 @@ def replay(ctx, data):
         run_history(ctx, st, tup(inp['start']), steps, 'r')
         ctx.correspond('history', st['hcases'], st['himpls'])
         return
-    one_pair(ctx, st, {'sections': tup(inp['old'])}, inp['label'], tup(inp['new']), 'r')
+    one_pair(ctx, st, {'sections': tup(inp['old'])}, inp['label'], tup(inp['new']), 'r', include=inp.get('include') or ())
     ctx.correspond('reread', st['cases'], st['impls'])
 
 
